@@ -46,6 +46,8 @@ import RedisGoModel.Props.C07
     * `C07_linearizable_partial` — the combined history of all clients of all nodes is linearizable (Herlihy–Wing,
       `Rendezvous.Linearizable`, the definition of `Props/C07Own.lean`), witness = log order.
     * `apply_enabled` — the composition does not block: a node with a committed, unapplied entry can apply it.
+    * `Multi.linearizable_needs_sms` (`Props/C07MultiBase.lean`) — the Raft interface is needed: two nodes that disagree on log position 0
+      give a combined history that is NOT linearizable, although `own_reply` holds at each node.
 
     **What is assumed / missing (hence `_partial`)**: (1) UniqueIds and AppendOnce are guards of `submit` / `propose` (hypotheses on the
     environment; `Rendezvous.own_reply_needs_unique_ids`, `…_needs_append_once` show they are needed). (2) The state machine is ONE
@@ -574,6 +576,13 @@ theorem same_prefix_same_keyspace_partial {Reply : Type} {step : S → List Resp
   rw [← List.map_take, ← h1] at this ⊢
   exact this
 
+/-- the instance with the state machine the `rendezvous` engine runs: `Driver.rzStep` = `applyClusterProposal` on the executable keyspace
+    model (`Exec.exec` with the clock reading fixed — ONE function for all nodes; for per-node clocks and random sources see
+    `same_prefix_same_keyspace_partial`), from the empty keyspace -/
+theorem C07_linearizable_keyspace_partial {s : Cl N Conn Exec.Db (List Resp.Bytes) Resp.Reply} (r : CReach Driver.rzStep [] s) :
+    Rendezvous.Linearizable Driver.rzStep [] (Multi.history s.m) :=
+  C07_linearizable_partial Driver.rzStep [] r
+
 /-! ## (c) the instance of `RS.commit_order_respects_real_time` on a run of the composition -/
 
 inductive CSteps (step : S → Cmd → S × Reply) : Cl N Conn S Cmd Reply → Cl N Conn S Cmd Reply → Prop
@@ -827,5 +836,6 @@ end C07Multi
 #print axioms C07Multi.apply_enabled
 #print axioms C07Multi.same_prefix_same_keyspace_partial
 #print axioms C07Multi.real_time_raft_index
+#print axioms C07Multi.C07_linearizable_keyspace_partial
 #print axioms C07Multi.c30_reach
 #print axioms C07Multi.c30_shared
